@@ -5,7 +5,8 @@
     thread creation under the heap guard (spawn_locked, tied to the step order of spawn_native_thread):
     C15_no_unregistered_runner_during_section for every schedule, hence
     C15_mutual_exclusion_outside_exit_window / C15_all_stopped_outside_exit_window for runs that avoid the exit window;
-    the former spawn window as witnesses on cfg_pre_spawn_fix.
+    the former spawn window as witnesses on cfg_pre_spawn_fix; C15_table_generations (every schedule) and
+    C15_global_visible (exit-window-free runs: an executing thread holds the current global table).
 (C) real script threads with hook H3: the stopper marks a thread's state while it reads / replaces it
     (enumerate_stacks, call_per_ctx); the owner looks the mark up at every instruction dispatch and when it
     retracts its published pointer; injected delays (STEEL_VERIF_DELAY) widen the windows.  No baton scheduler:
@@ -137,10 +138,11 @@ def run(ck):
                     "C15_mutual_exclusion_outside_exit_window / C15_all_stopped_outside_exit_window (Excl15 along every run none of whose "
                     "worlds has a thread between its paused-load and ctx.store(None) with its flag since set); the exit window as a "
                     "refutation witness on the current tree, the former spawn window as witnesses on cfg_pre_spawn_fix "
-                    "(C15_global_visible_refuted_spawn_window, C15_unregistered_runner_before_fix). NOT proved as a theorem: "
-                    "global_visible in the form 'seen = env_gen at every Exec' (the second pass hands every stopped thread the new table "
-                    "by definition of the step, a new thread copies its spawner's table under the guard, and no stopped thread executes "
-                    "before it is resumed - C15_all_stopped_outside_exit_window - but the seen/env_gen bookkeeping invariant was not done)")
+                    "(C15_global_visible_refuted_spawn_window, C15_unregistered_runner_before_fix). Visibility of completed updates: "
+                    "C15_table_generations (every schedule: outside the second pass of an update every started, unfinished thread holds the "
+                    "current table generation, inside it the threads below the pass position hold the new one and the others the previous "
+                    "one; a new thread copies its spawner's table under the guard) and C15_global_visible (exit-window-free runs: a thread "
+                    "that executes an instruction holds the current table)")
     # the generated table of C16 is the tie for the lock discipline this model's cfg_fixed describes
     text, _, _ = gen_coq(*scan_sources())
     ck.translate("Gen_C16", text)
